@@ -151,6 +151,26 @@ ENGINES['etspes'] = {
               'bitstream/mpeg/ts.h and pes.h replaced by shim/bitstream/mpeg/{ts,pes}.h'],
 }
 
+SWEEP_MODULES = ['buffer', 'burst', 'convert_to_block', 'dejitter', 'delay', 'discard_blocking', 'dump', 'genaux', 'htons', 'idem',
+                 'match_attr', 'multicat_probe', 'noclock', 'nodemux', 'null', 'probe_uref', 'rate_limit', 'setattr', 'setflowdef',
+                 'setrap', 'skip', 'time_limit', 'dtsdi', 'ntsc_prepend', 'aggregate', 'chunk_stream', 'm3u_reader', 'rtp_h264',
+                 'rtp_mpeg4']
+ENGINES['esweep'] = {
+    'src': ['harness/esweep.c'],
+    'sim_src': ['sim/alloc.c', 'sim/umem_sim.c', 'sim/upump_sim.c'],
+    'repo_src': BUF_SRC + ['lib/upipe/upump_common.c', 'lib/upipe/uprobe_upump_mgr.c', 'lib/upipe/uprobe_uref_mgr.c',
+                           'lib/upipe/uprobe_ubuf_mem.c', 'lib/upipe/uprobe_uclock.c', 'lib/upipe/uprobe_prefix.c', 'lib/upipe/ustring.c',
+                           'lib/upipe/uuri.c'] +
+                ['lib/upipe-modules/upipe_%s.c' % m for m in SWEEP_MODULES],
+    'track_alloc': True,
+    'real': ['lib/upipe-modules/upipe_%s.c' % m for m in SWEEP_MODULES] +
+            ['include/upipe/upipe_helper_output.h', 'include/upipe/upipe_helper_input.h', 'lib/upipe/uprobe_upump_mgr.c',
+             'lib/upipe/uprobe_uref_mgr.c', 'lib/upipe/uprobe_ubuf_mem.c', 'lib/upipe/uprobe_uclock.c', 'lib/upipe/upump_common.c',
+             'lib/upipe/uref_std.c', 'lib/upipe/udict_inline.c', 'lib/upipe/ubuf_block_mem.c'],
+    'stubs': ['event loop (sim/upump_sim.c) and clock', 'allocator (umem_sim + malloc layer with injected failures)',
+              'application side: mock sinks (accept / refuse flow definitions), recording probe'],
+}
+
 SC = ('interleavings are explored under sequential consistency at the yield points of DESIGN.md 2.1 '
       '(every uatomic operation, every plain ring-element access, every descriptor read/write)')
 
@@ -243,8 +263,10 @@ PROPS['C12'] = {'engine': 'epipe', 'engines': ['epipe', 'ethread'], 'quick_time'
     'assumptions': ['in-thread chains only: the cross-queue part of C12 is not covered by this check',
                     'request types exercised: sink latency and flow format']}
 PROPS['C20']['engines'] = ['epipe', 'estream']
-PROPS['C01']['engines'] = ['epipe', 'ethread']
-PROPS['C01']['quick_time'] = 40
+PROPS['C01']['engines'] = ['epipe', 'ethread', 'esweep']
+PROPS['C01']['quick_time'] = 45
+PROPS['C04']['engines'] = ['epipe', 'esweep']
+PROPS['C04']['quick_time'] = 40
 PROPS['C20']['rule'] += (' Second engine (estream): the size / mtu+align / sync-count options of aggregate, chunk_stream, ts_sync, ts_check set in mid-stream '
                         'with allocation failures inside the setter, getters at random instants.')
 PROPS['C20']['assumptions'].append('getter side effects are decided by a differential run: the same plan is executed with and without its getter calls (same choices) and the histories seen by sinks and probes must be identical')
